@@ -8,6 +8,7 @@ from p_c10 import ALPHA, ATTS2, WID, cols
 
 class C11(PureCheck):
     pid = "C11"
+    warm_every = 3
     rule = ("layouts of <=2 runs of length 0..3 (quick; + sampled 3-run layouts) / <=3 runs of length 0..2 + <=2 runs of "
             "length 0..4 (thorough) over {a, U+FF25 (double-width), U+0301 (combining)} x {plain, red} - empty runs, the "
             "run-less value, runs ending exactly at a line boundary, double-width characters at every alignment, zero-width "
